@@ -69,13 +69,13 @@ func (app *AppData) Pack(buffer []byte) {
 	}
 
 	buffer[0] = byte(dataLength)
+	buffer[1] = byte(app.Command>>2) & 3
 
 	if app.Numbered {
 		buffer[1] |= 1<<6 | (app.SeqNumber&15)<<2
 	}
 
-	buffer[1] |= byte(app.Command>>2) & 3
-
+	buffer[2] = 0
 	copy(buffer[2:], app.Data)
 
 	buffer[2] &= 63
